@@ -35,7 +35,12 @@ type compiler struct {
 	inCheck bool
 
 	writeDepth int // nesting of collections currently being written
+	callDepth  int // nesting of calls being evaluated
 }
+
+// maxCallDepth bounds the nesting of calls - of functions defined in a
+// template (recursion included) and of helpers whose blocks call again.
+const maxCallDepth = 1000
 
 // maxWriteDepth bounds the nesting of collections an output tag prints, so
 // that a slice that (directly or indirectly) contains itself ends the output
@@ -751,6 +756,15 @@ func (c *compiler) stringsOperator(l string, r interface{}, op string) (interfac
 }
 
 func (c *compiler) evalCallExpression(node *ast.CallExpression) (interface{}, error) {
+	// a function that keeps calling itself, or a stored block that renders
+	// itself, must end in an error, not in the exhaustion of the Go stack,
+	// which would take the whole process down
+	if c.callDepth >= maxCallDepth {
+		return nil, fmt.Errorf("calls nested deeper than %d levels (%s)", maxCallDepth, node.Function)
+	}
+	c.callDepth++
+	defer func() { c.callDepth-- }()
+
 	var rv reflect.Value
 
 	if node.Callee != nil {
